@@ -710,6 +710,13 @@ def rep_array(rep, arr):
     raise ValueError(rep)
 
 
+def fresh_str(s):
+    """An equal string that is a different object (not the interned literal): what a value read from a configuration file,
+    a request or `.lower()` is.  Code that compares strings by identity is right for literals only."""
+    t = ''.join(list(s))
+    return t if t is not s else (s + ' ')[:-1]
+
+
 def spell(rnd, word):
     """A word the library accepts in any capitalisation ('south' / 'South' / 'SOUTH')."""
     return rnd.choice([word.lower(), word.capitalize(), word.upper()])
@@ -759,6 +766,113 @@ def shaped_call(fn, names, values, shape=None, omit=()):
         kw = {n: v for n, v in zip(names[k:], values[k:]) if n not in omit}
         return fn(*values[:k], **kw)
     raise ValueError(shape)
+
+
+# --------------------------------------------------------------------------------------------
+# interleaving injection: another complete call made at a statement boundary inside a judged call
+# --------------------------------------------------------------------------------------------
+class Interleaver:
+    """While a judged call runs, sys.monitoring LINE events are on for the repository's code; at the k-th statement boundary
+    reached inside the library a complete other call (the "twin") is made in the same thread, then the judged call resumes.
+    A thread switch can fall on any such boundary, so whatever the twin disturbs there (a module-level work array, a shared
+    "current frame" object, a report dictionary, a relaxed tolerance) a second thread could disturb as well; made in the same
+    thread the interleaving is deterministic and replayable.  The judged call is judged as always: its result must be right."""
+    TOOL = 2
+
+    def __init__(self, root):
+        self.root = os.path.realpath(root) + os.sep
+        self.files = {}
+        self.k = self.n = 0
+        self.twin = None
+        self.state = 'off'
+        self.sites = set()
+
+    def _ours(self, code):
+        f = code.co_filename
+        r = self.files.get(f)
+        if r is None:
+            r = self.files[f] = os.path.realpath(f).startswith(self.root)
+        return r
+
+    def _on_line(self, code, line):
+        if self.state != 'armed' or not self._ours(code):
+            return None
+        self.n += 1
+        if self.n == self.k:
+            self.state = 'twin'
+            self.sites.add('%s:%d' % (os.path.basename(code.co_filename), line))
+            try:
+                self.twin()
+            except BaseException as e:           # the twin's own outcome is nobody's business here
+                if isinstance(e, (Inconclusive, KeyboardInterrupt)):
+                    raise
+            finally:
+                self.state = 'done'
+        return None
+
+    def run(self, k, twin, call):
+        """call() with twin() injected at the k-th statement boundary inside the library.  Returns (result, injected)."""
+        mon = sys.monitoring
+        try:
+            mon.use_tool_id(self.TOOL, 'vmon-interleave')
+        except ValueError:
+            pass
+        self.k, self.n, self.twin, self.state = int(k), 0, twin, 'armed'
+        mon.register_callback(self.TOOL, mon.events.LINE, self._on_line)
+        mon.set_events(self.TOOL, mon.events.LINE)
+        try:
+            res = call()
+        finally:
+            mon.set_events(self.TOOL, 0)
+            mon.register_callback(self.TOOL, mon.events.LINE, None)
+            injected = self.state == 'done'
+            self.state = 'off'
+            self.twin = None
+        return res, injected
+
+
+_INTERLEAVER = {}
+
+
+def interleaved(ctx, k, twin, call):
+    """Judged call `call()` with `twin()` injected at the k-th statement boundary inside the library (see Interleaver)."""
+    root = repo_root()
+    il = _INTERLEAVER.get(root)
+    if il is None:
+        il = _INTERLEAVER[root] = Interleaver(root)
+    res, injected = il.run(k, twin, call)
+    ctx.count('interleaved_calls_with_a_twin_call_injected' if injected else 'interleaved_calls_that_ended_before_the_chosen_boundary')
+    ctx.info['interleaving_sites_seen'] = sorted(il.sites)[:40]
+    return res
+
+
+def interleave_of(case, p=0.04, kmax=45):
+    """Like choose_interleave, decided by the hash of the case (for workloads whose generators do not choose it): None or the
+    index of the statement boundary; a replay of the case interleaves at the same place."""
+    il = case.get('interleave') if isinstance(case, dict) else None
+    if il:
+        return il.get('at')
+    h = int(stable_hash([case, 'interleave']), 16)
+    return 1 + (h >> 12) % kmax if h % 1000 < p * 1000 else None
+
+
+def case_rnd(case, salt='twin'):
+    """A random generator that depends on the case only (twin calls, delivery details)."""
+    import random as _r
+    return _r.Random(stable_hash([case, salt]))
+
+
+def maybe_interleaved(ctx, case, twin, call, p=0.04, kmax=45):
+    """call(), in a share of the cases with twin() injected at a statement boundary inside the library."""
+    k = interleave_of(case, p, kmax)
+    if not k:
+        return call()
+    return interleaved(ctx, k, twin, call)
+
+
+def choose_interleave(rnd, p=0.04, kmax=45):
+    """None, or the index of the statement boundary at which the twin call is injected."""
+    return rnd.randint(1, kmax) if rnd.random() < p else None
 
 
 _UNJUDGED_HUNG = set()
